@@ -35,6 +35,17 @@ CHECKS["C03"] = dict(
     text="Every sequence (up to the completed depth) of removal/replacement operations (ROA/ASPA/BGPsec removal and forced re-issue, child remove/suspend, entitlement loss, key roll, parent removal, CA deletion with children) in worlds with and without class-name mapping and with two parents; every object that stops being current must be gone after the next synchronisation and its serial must be - and stay - on the issuing key's CRL while that key publishes one and the object is unexpired.",
     note=E1_NOTE)
 
+CHECKS["C04"] = dict(
+    engine="E1", category="model_checking", design="4/C04",
+    technique="explicit-state exploration (fork-checkpointed DFS) of key-roll steps interleaved with other operations on the real code; single-signer / RP-safety invariants in every state and a completion oracle run on a forked copy of every state",
+    text="Every interleaving (up to the completed depth) of roll initiate/activate, task steps and pumps with ROA/ASPA/BGPsec changes, entitlement changes at both levels, child requests, a second roll and restarts, for a CA under a normal parent, for a CA directly under the TA (proxy/signer exchange), with raw task-by-task stepping (RollPending/RollNew/RollOld all visited) and (thorough) two resource classes; in every state at most one key per class publishes products, nothing invalid or extra is published, nothing panics; from every state the continuation settle-activate-settle (x2) ends with one active key per class, no open request and the full C01 oracle holding.",
+    note=E1_NOTE + " Thread schedules are C18's subject, not explored here.")
+CHECKS["C06"] = dict(
+    engine="E1", category="model_checking", design="4/C06",
+    technique="explicit-state exploration (fork-checkpointed DFS) with a differential oracle at every state: live aggregates vs fresh stores on the same storage (snapshot + later commands) vs a restarted instance on a forked copy with all snapshots deleted (replay from command 0)",
+    text="At every explored state (C01 alphabet plus real UpdateSnapshots runs, rejected commands, identity update, publisher removal) the serde view of every CertAuth, the TA proxy, the TA signer, the repository access aggregate and the repository content log as loaded by a fresh store equals the running instance's (masking exactly last_key_change / since), and an instance restarted on the log alone (snapshots removed) yields identical API views (CA info, configured ROAs, ASPA, BGPsec, child info, publisher files, repo stats); replay never fails or panics.",
+    note=E1_NOTE)
+
 NOT_YET = {
 }
 
